@@ -86,12 +86,21 @@ def transfer(I, fr, t, c, pth):
     res = c.get('res') or d
     args = t['args']
     dest = t['dest']
+    if name == 'num_bits' and c.get('trait') == 'ff::PrimeFieldRepr' and len(args) == 1 and c.get('res_local') and I.facts.body(res) is not None:
+        # the derive's bit length (limbs scanned from the top, leading_zeros of each): decided for a scalar whose leading
+        # one is known
+        try:
+            I._inline_call(fr, t, res, pth)
+            return True
+        except exp.NotDerivable:
+            return False
     if d == 'std::iter::Iterator::rev' or res.endswith('Iterator::rev'):
         v = fr.operand(args[0])
         if isinstance(v, RangeIt):
             fr.storev(dest, RevIt(v.cur, v.end))
             return True
-        return False
+        import stdmodel
+        return stdmodel.std_transfer(I, fr, t, c, pth)
     if name == 'next' and res.startswith('<std::iter::Rev<'):
         v = fr.deref_operand(args[0])
         if isinstance(v, RevIt):
@@ -101,6 +110,8 @@ def transfer(I, fr, t, c, pth):
             else:
                 fr.storev(dest, Opt('none', TOP))
             return True
+        if isinstance(v, (exp.SliceIt, exp.AdaptIt)) or hasattr(v, 'iter_next'):
+            return False        # a reversed slice / adaptor: the generic iterator model steps it
         raise exp.NotDerivable('reverse loop over a non-constant range', t['span'])
     if 'BitIterator' in d and name == 'new':
         v = fr.operand(args[0])
